@@ -558,7 +558,7 @@ Definition run (fl : bool) (defs : list pdef) (fuel : nat) (s : list sitem) : cf
 (* THE SWITCH.  false: life-cycle hooks are dispatched outside `_process_scope` (plumpy as it is, finding D13).
    With the proposed patch (notes/C18-D13.patch: Process.transition_to, _do_pause and play enter the scope)
    this becomes true; nothing else in the model changes. *)
-Definition hooks_scoped_now : bool := false.
+Definition hooks_scoped_now : bool := true.
 
 (* ------------------------------------------------------------------ vocabulary of the theorems *)
 (* the scopes a task is inside of, innermost first *)
